@@ -379,6 +379,20 @@ func (schemaStream) Execute(c Case) {
 		if got := verdictOf(func() error { return (*schema.Schema)(nil).Validate(s) }); got != "ok" {
 			aux = append(aux, "a nil schema rejects an in-memory Spec: "+got)
 		}
+		// the same object again after a Spec the schema rejects (a negative hook timeout) and one it accepts went through
+		// the same entry point: the verdict belongs to the object
+		bad := &specs.Spec{Version: specs.CurrentVersion, Kind: "vendor.com/class", Devices: []specs.Device{{Name: "d", ContainerEdits: specs.ContainerEdits{
+			Hooks: []*specs.Hook{{HookName: "poststop", Path: "/bin/x", Timeout: intp(-1)}}}}}}
+		good := &specs.Spec{Version: specs.CurrentVersion, Kind: "vendor.com/class", Devices: []specs.Device{{Name: "d", ContainerEdits: specs.ContainerEdits{Env: []string{"A=b"}}}}}
+		for _, prior := range []*specs.Spec{bad, good, bad} {
+			pv := verdictOf(func() error { return b.Validate(prior) })
+			if (prior == bad) == (pv == "ok") {
+				aux = append(aux, fmt.Sprintf("Schema.Validate of a fixed Spec (valid: %v) gives %s", prior == good, pv))
+			}
+			if got := verdictOf(func() error { return b.Validate(s) }); got != obs["typed"] {
+				aux = append(aux, fmt.Sprintf("Schema.Validate of the same Spec: %v at first, %s after another Spec was validated", obs["typed"], got))
+			}
+		}
 		if got := verdictOf(func() error { return schema.NopSchema().Validate(s) }); got != "ok" {
 			aux = append(aux, "the no-op schema rejects an in-memory Spec: "+got)
 		}
@@ -389,6 +403,17 @@ func (schemaStream) Execute(c Case) {
 		obs["libaccepts"] = false
 		if cache.WriteSpec(s, "out.json") == nil && cache.WriteSpec(s, "out.yaml") == nil {
 			obs["libaccepts"] = true
+			// other documents go through the byte entry point first - one with an ill-formed annotation key in each of
+			// four devices (refused), one with 150 KiB of well-formed annotations in each (accepted): the verdict on the
+			// files written for this Spec is theirs alone
+			for _, key := range []string{"bad key!", "vendor.com/primer"} {
+				var devs []string
+				for i := 0; i < 4; i++ {
+					devs = append(devs, fmt.Sprintf(`{"name":"p%d","annotations":{%q:%q},"containerEdits":{"env":["A=b"]}}`, i, key, strings.Repeat("v", 150*1024)))
+				}
+				primer := []byte(`{"cdiVersion":"0.6.0","kind":"vendor.com/class","devices":[` + strings.Join(devs, ",") + `]}`)
+				_ = verdictOf(func() error { return b.ValidateData(primer) })
+			}
 			obs["fileJson"] = verdictOf(func() error { return b.ValidateFile(filepath.Join(dir, "out.json")) })
 			obs["fileYaml"] = verdictOf(func() error { return b.ValidateFile(filepath.Join(dir, "out.yaml")) })
 			// installing, using and removing a validator, under a deadline (a leaked lock must not hang the stream)
